@@ -145,7 +145,7 @@ class Model(nn.Module):
                     self.backbone.max_channels
                     / (
                         self.backbone_config.filters_rate
-                        ** len(self.backbone.dec.decoder_stack)
+                        ** (strides.index(min_output_stride) + 1)
                     )
                 )
             )
